@@ -280,11 +280,17 @@ class InterpCore:
             return False
         new = self.ev(st.value, fr)
         old = owner.fields[tgt.attr]
+        if type(old).__name__ == "LazyUnion":
+            old = self.materialise(owner, tgt.attr)
         self.note_write(owner, tgt.attr, fr)
         owner.fields[tgt.attr] = SymIte(z3.simplify(t), new, old)
         return True
 
     def st_FunctionDef(self, s, fr):
+        for d in s.decorator_list:
+            # only functools.wraps (metadata) may decorate a nested function
+            if not (isinstance(d, ast.Call) and isinstance(d.func, ast.Name) and d.func.id == "wraps"):
+                raise Unsupported(f"decorator on nested function {s.name}")
         fr.locals[s.name] = Closure(s, fr, fr.module)
 
     st_AsyncFunctionDef = st_FunctionDef
